@@ -121,7 +121,7 @@ def model_check(tier):
         f2 = ex.submit(mc, "MC_LlcpPdu_bytes.cfg" if q else "MC_LlcpPdu_bytes_thorough.cfg")
         f3 = ex.submit(wit, "MC_LlcpPdu_reach.cfg", ["W_Rw0", "W_Nested", "W_Snl2"])
         f4 = ex.submit(wit, "MC_LlcpPdu_bytes_reach.cfg",
-                       ["W_TlvSlice", "W_MemSlice", "W_LenSlice", "W_NoNest", "W_TlvLen", "W_Skip"])
+                       ["W_TlvSlice", "W_MemSlice", "W_NoNest", "W_TlvLen", "W_Skip"])
         r1, r2, m3, m4 = f1.result(), f2.result(), f3.result(), f4.result()
     if m3 or m4:
         raise tlc.TLCError("vacuous model: witnesses not reached: %s" % sorted(m3 | m4))
@@ -211,7 +211,7 @@ def run(tier, seed):
                       "TLC per case, excluding the header-length check ERR/short",
                  mc_pdu_states=mc["pdu"].distinct, mc_bytes_states=mc["byt"].distinct,
                  mc_wall_s=round(max(mc["pdu"].wall, mc["byt"].wall), 1),
-                 witnesses_reached=["W_Rw0", "W_Nested", "W_Snl2", "W_TlvSlice", "W_MemSlice", "W_LenSlice",
+                 witnesses_reached=["W_Rw0", "W_Nested", "W_Snl2", "W_TlvSlice", "W_MemSlice",
                                     "W_NoNest", "W_TlvLen", "W_Skip"],
                  trace_states=tstates, cases_by_generator=tags, cases_by_nfcpy_outcome=outs,
                  rejected_cases=sum(len(v) for v in rejected.values()),
